@@ -19,6 +19,9 @@ pub struct C03 {
   pub max_len: usize,
   pub pre: Option<OpKind>,
   pub post: Option<OpKind>,
+  /// 1 = "dynamic registration" slice: hot sources only, no error endings,
+  /// the first source may emit 3 items, the others 1 (deep flat_map histories)
+  pub mode: u8,
 }
 
 /// reference interpreter state
@@ -329,8 +332,9 @@ fn timed(inst_ref: &(dyn Fn(RStream) -> RStream + Send + Sync), script: &[Ev]) -
 impl Harness for C03 {
   fn name(&self) -> String {
     format!(
-      "C03/{}/{}/{}/{}/L{}",
+      "C03/{}{}/{}/{}/{}/L{}",
       self.comb.name(),
+      if self.mode == 1 { "~dyn" } else { "" },
       self.n_src,
       self.pre.map(|o| o.name()).unwrap_or("-"),
       self.post.map(|o| o.name()).unwrap_or("-"),
@@ -341,8 +345,22 @@ impl Harness for C03 {
   fn run(&self) -> Verdict {
     let n = self.n_src;
     let clock = Arc::new(Mutex::new(0usize));
-    let scripts: Vec<Vec<Ev>> = (0..n).map(|k| sym_script(&format!("s{}", k), self.max_len, true)).collect();
-    let is_hot: Vec<bool> = (0..n).map(|k| sym::choose(&format!("s{}.hot", k), 2) == 0).collect();
+    let scripts: Vec<Vec<Ev>> = if self.mode == 1 {
+      (0..n)
+        .map(|k| {
+          let len = sym::choose(&format!("s{}.len", k), if k == 0 { 4 } else { 2 });
+          let mut v: Vec<Ev> = (0..len).map(|i| Ev::Next(Sym::var(&format!("s{}.x{}", k, i), (k * 10 + i) as i64))).collect();
+          if sym::choose(&format!("s{}.end", k), 2) == 0 {
+            v.push(Ev::Complete);
+          }
+          v
+        })
+        .collect()
+    } else {
+      (0..n).map(|k| sym_script(&format!("s{}", k), self.max_len, true)).collect()
+    };
+    let is_hot: Vec<bool> =
+      (0..n).map(|k| if self.mode == 1 { true } else { sym::choose(&format!("s{}.hot", k), 2) == 0 }).collect();
     let hots: Vec<Hot> = (0..n).map(|_| Hot::new(clock.clone())).collect();
     let counters: Vec<Arc<Mutex<usize>>> = (0..n).map(|_| Arc::new(Mutex::new(0))).collect();
     let cold_at: Arc<Mutex<Vec<(usize, usize)>>> = Arc::new(Mutex::new(vec![]));
@@ -596,7 +614,7 @@ pub fn plan(tier: Tier, seed: u64) -> Plan {
     };
     for n in ns {
       let len = if n >= 3 { l.min(2) } else { l };
-      h.push(Arc::new(C03 { comb: c, n_src: n, max_len: len, pre: None, post: None }));
+      h.push(Arc::new(C03 { comb: c, n_src: n, max_len: len, pre: None, post: None, mode: 0 }));
     }
     // nesting with one C02 operator below (on source 0) or above
     let nest = [OpKind::Map, OpKind::Filter, OpKind::Take, OpKind::Skip, OpKind::TakeWhile, OpKind::Scan, OpKind::Reduce, OpKind::DistinctUntilChanged];
@@ -605,10 +623,18 @@ pub fn plan(tier: Tier, seed: u64) -> Plan {
         continue;
       }
       let n = if c == Comb::FlatMap { 3 } else { 2 };
-      h.push(Arc::new(C03 { comb: c, n_src: n, max_len: 2, pre: Some(*o), post: None }));
+      h.push(Arc::new(C03 { comb: c, n_src: n, max_len: 2, pre: Some(*o), post: None, mode: 0 }));
       if c != Comb::Zip {
-        h.push(Arc::new(C03 { comb: c, n_src: n, max_len: 2, pre: None, post: Some(*o) }));
+        h.push(Arc::new(C03 { comb: c, n_src: n, max_len: 2, pre: None, post: Some(*o), mode: 0 }));
       }
+    }
+  }
+  // deep flat_map histories (observers registered dynamically): outer + 3 hot inners,
+  // exploration sliced over the first arrival-order decisions
+  for a in 0..4i64 {
+    for b in 0..4i64 {
+      let inner: Arc<dyn Harness> = Arc::new(C03 { comb: Comb::FlatMap, n_src: 4, max_len: 3, pre: None, post: None, mode: 1 });
+      h.push(Arc::new(crate::explore::Pinned { inner, pins: vec![("ord0".to_string(), a), ("ord1".to_string(), b)] }));
     }
   }
   Plan {
@@ -633,8 +659,13 @@ pub fn by_name(name: &str) -> Option<Arc<dyn Harness>> {
     return None;
   }
   let f = |x: &str| if x == "-" { Some(None) } else { OpKind::from_name(x).map(Some) };
+  let (cname, mode) = match p[1].strip_suffix("~dyn") {
+    Some(c) => (c, 1u8),
+    None => (p[1], 0u8),
+  };
   Some(Arc::new(C03 {
-    comb: Comb::from_name(p[1])?,
+    mode,
+    comb: Comb::from_name(cname)?,
     n_src: p[2].parse().ok()?,
     pre: f(p[3])?,
     post: f(p[4])?,
